@@ -50,9 +50,11 @@ theorem custom_name_iff (s : Shape) (hne : s.custom ≠ reflectName s) :
 example : (shapes.map eventType) =
     ["main.NPlain", "*main.NPlain", "nval.v1", "nval.v1", "main.NPtr", "nptr.v1",
      "state.ChangeMessage", "state.ChangeMessage", "state.ControlMessage", "state.ControlMessage",
-     "ndyn.v7", "ndyn.v7", "main.NDynP", "ndynp.v7", "nptr.v1", "0042", "*main.NPlain"] := by
+     "ndyn.v7", "ndyn.v7", "main.NDynP", "ndynp.v7", "nptr.v1", "0042", "*main.NPlain",
+     "ntick.v1", "nbatch.v1", "nmap.v1"] := by
   decide
 example : (shapes.map Shape.constName) =
-    [true, true, true, true, true, true, true, true, true, true, false, false, false, false, true, true, true] := by decide
+    [true, true, true, true, true, true, true, true, true, true, false, false, false, false, true, true, true,
+     true, true, true] := by decide
 
 end Ebu.Props.C15
